@@ -8,6 +8,13 @@ import Anytree.Props.C08
 
 Last clause of C08: same node first (in fact: the one-element list of that node), same error — not
 only the same error class but the identical `ResolverError` (class, node and component).
+
+With `ignorecase` the two methods compare differently: `get` compares `str.upper()`, `glob` matches
+under `re.IGNORECASE`.  The theorems therefore carry `CaseAgree c P` — the two foldings induce the
+same equivalence on the characters of the node names and of the path — which is vacuous without
+`ignorecase`, proved for ASCII and for the regular alphabet (`Spec.caseAgree_of_ascii`,
+`Spec.caseAgree_of_regular`), and cannot be dropped: §4 replays, in the model, the disagreement of the
+real code on a child named KELVIN SIGN.
 -/
 namespace Anytree.Props.C08b
 open Anytree Tree Str Resolver Spec
@@ -39,23 +46,36 @@ theorem upper_eq_iff (s t : String) :
     upper s = upper t ↔ s.toList.map upperChar = t.toList.map upperChar :=
   C08bL.upper_eq_iff s t
 
-/-- `__cmp` as character-by-character equality -/
-theorem cmp_iff_eqChars (ic : Bool) (name pat : String) :
+/-- `__cmp` as character-by-character equality under `re.IGNORECASE`, over case-regular characters -/
+theorem cmp_iff_eqChars (ic : Bool) (name pat : String)
+    {P : Char → Prop} (hP : ic = true → CaseFold.CaseRegular P)
+    (hn : ∀ x ∈ name.toList, P x) (hp : ∀ x ∈ pat.toList, P x) :
     cmp ic name pat = true ↔ EqChars ic pat.toList name.toList := by
-  rw [C08bL.cmp_iff_norm]
-  exact (C08bL.eqChars_iff_norm ic pat.toList name.toList).symm
+  rw [C08bL.cmp_iff_norm, ← GlobL.normRe_eq_iff_norm ic hP _ _ hn hp]
+  exact (C08bL.eqChars_iff_normRe ic pat.toList name.toList).symm
 
 /-- on a wildcard-free pattern `__match` (regular expression) and `__cmp` (string comparison) are
-the same test -/
-theorem matchPure_eq_cmp (ic : Bool) (name pat : String) (hw : isWildcard pat = false) :
+the same test — over characters on which `str.upper()` and `re.IGNORECASE` agree -/
+theorem matchPure_eq_cmp (ic : Bool) (name pat : String) (hw : isWildcard pat = false)
+    {P : Char → Prop} (hP : ic = true → CaseFold.CaseRegular P)
+    (hn : ∀ x ∈ name.toList, P x) (hp : ∀ x ∈ pat.toList, P x) :
     matchPure ic name pat = cmp ic name pat :=
-  C08bL.matchPure_eq_cmp ic name pat hw
+  C08bL.matchPure_eq_cmp ic name pat hw hP hn hp
+
+/-- … in particular on ASCII strings -/
+theorem matchPure_eq_cmp_ascii (ic : Bool) (name pat : String) (hw : isWildcard pat = false)
+    (hn : ∀ x ∈ name.toList, x.toNat < 128) (hp : ∀ x ∈ pat.toList, x.toNat < 128) :
+    matchPure ic name pat = cmp ic name pat :=
+  matchPure_eq_cmp ic name pat hw (fun _ => CaseFold.caseRegular_ascii) hn hp
 
 /-- the same through the compiled-pattern cache -/
 theorem matchC_eq_cmp (ic : Bool) (k : Cache) (hk : C08.CacheInv k) (name pat : String)
-    (hw : isWildcard pat = false) : (matchC ic k name pat).1 = cmp ic name pat := by
+    (hw : isWildcard pat = false)
+    {P : Char → Prop} (hP : ic = true → CaseFold.CaseRegular P)
+    (hn : ∀ x ∈ name.toList, P x) (hp : ∀ x ∈ pat.toList, P x) :
+    (matchC ic k name pat).1 = cmp ic name pat := by
   rw [(GlobL.matchC_transparent ic k name pat hk).1]
-  exact matchPure_eq_cmp ic name pat hw
+  exact matchPure_eq_cmp ic name pat hw hP hn hp
 
 theorem cmp_symm (ic : Bool) (s t : String) (h : cmp ic s t = true) : cmp ic t s = true :=
   C08bL.cmp_symm ic s t h
@@ -65,24 +85,28 @@ theorem cmp_trans (ic : Bool) (s t u : String) (h1 : cmp ic s t = true) (h2 : cm
   C08bL.cmp_trans ic s t u h1 h2
 
 /-- a literal component selects exactly the children `__get` compares equal -/
-theorem matching_literal (c : Ctx α) (a : Addr) (name : String) (hw : isWildcard name = false) :
+theorem matching_literal (c : Ctx α) (a : Addr) (name : String) (hw : isWildcard name = false)
+    (hca : CaseAgree c (· ∈ name.toList)) :
     matching c a name = (c.children a).filter (fun ch => cmp c.ignorecase (c.name ch) name) := by
   unfold matching
   congr 1
-  exact funext fun ch => matchPure_eq_cmp _ _ _ hw
+  exact funext fun ch => matchPure_eq_cmp _ _ _ hw hca
+    (fun x hx => Or.inr ⟨ch, hx⟩) (fun x hx => Or.inl hx)
 
 /-- under sibling-uniqueness the child `get` steps to is the only child the literal component
 selects (two siblings equal to the pattern are equal to each other: `cmp` is symmetric and
 transitive) -/
 theorem matching_literal_of_getChild (c : Ctx α) (hsu : SiblingUnique c) (a : Addr) (name : String)
-    (hw : isWildcard name = false) (ch : Addr) (h : getChild c a name = some ch) :
+    (hw : isWildcard name = false) (hca : CaseAgree c (· ∈ name.toList))
+    (ch : Addr) (h : getChild c a name = some ch) :
     matching c a name = [ch] := by
-  rw [matching_literal c a name hw]
+  rw [matching_literal c a name hw hca]
   exact C08bL.filter_cmp_of_find c hsu a name ch h
 
 theorem matching_literal_of_getChild_none (c : Ctx α) (a : Addr) (name : String)
-    (hw : isWildcard name = false) (h : getChild c a name = none) : matching c a name = [] := by
-  rw [matching_literal c a name hw, List.filter_eq_nil_iff]
+    (hw : isWildcard name = false) (hca : CaseAgree c (· ∈ name.toList))
+    (h : getChild c a name = none) : matching c a name = [] := by
+  rw [matching_literal c a name hw hca, List.filter_eq_nil_iff]
   exact List.find?_eq_none.mp h
 
 /-! ## 2. component lists -/
@@ -127,34 +151,42 @@ theorem SameClass.refl (e : RErr) : SameClass e e := by cases e <;> trivial
 the one-element list of the node the walk reaches, or the very error of the walk's first failing
 component.  Holds for every start address (validity is not needed) and every well-formed cache. -/
 theorem globM_literal (c : Ctx α) (hr : c.relax = false) (hsu : SiblingUnique c)
-    (parts : List String) (hp : ∀ p ∈ parts, Admissible p) (a : Addr)
+    {P : Char → Prop} (hca : CaseAgree c P)
+    (parts : List String) (hp : ∀ p ∈ parts, Admissible p)
+    (hpP : ∀ p ∈ parts, ∀ x ∈ p.toList, P x) (a : Addr)
     (k : Cache) (hk : C08.CacheInv k) :
     (globM false c parts a k).1 =
       (match walkPath c parts a with
        | .ok b => .ok [b]
        | .error e => .error e) := by
   rw [(GlobL.globM_spec false c parts a k hk).1]
-  exact C08bL.globP_literal c hr hsu parts (fun p h => (admissible_iff p).mp (hp p h)) a
+  exact C08bL.globP_literal c hr hsu hca parts (fun p h => (admissible_iff p).mp (hp p h)) hpP a
 
 theorem globM_literal_ok (c : Ctx α) (hr : c.relax = false) (hsu : SiblingUnique c)
-    (parts : List String) (hp : ∀ p ∈ parts, Admissible p) (a : Addr)
+    {P : Char → Prop} (hca : CaseAgree c P)
+    (parts : List String) (hp : ∀ p ∈ parts, Admissible p)
+    (hpP : ∀ p ∈ parts, ∀ x ∈ p.toList, P x) (a : Addr)
     (k : Cache) (hk : C08.CacheInv k) (b : Addr) (h : walkPath c parts a = .ok b) :
     (globM false c parts a k).1 = .ok [b] := by
-  rw [globM_literal c hr hsu parts hp a k hk, h]
+  rw [globM_literal c hr hsu hca parts hp hpP a k hk, h]
 
 /-- the stronger form: the identical error -/
 theorem globM_literal_error (c : Ctx α) (hr : c.relax = false) (hsu : SiblingUnique c)
-    (parts : List String) (hp : ∀ p ∈ parts, Admissible p) (a : Addr)
+    {P : Char → Prop} (hca : CaseAgree c P)
+    (parts : List String) (hp : ∀ p ∈ parts, Admissible p)
+    (hpP : ∀ p ∈ parts, ∀ x ∈ p.toList, P x) (a : Addr)
     (k : Cache) (hk : C08.CacheInv k) (e : RErr) (h : walkPath c parts a = .error e) :
     (globM false c parts a k).1 = .error e := by
-  rw [globM_literal c hr hsu parts hp a k hk, h]
+  rw [globM_literal c hr hsu hca parts hp hpP a k hk, h]
 
 /-- the form the property states: an error of the same class -/
 theorem globM_literal_error_class (c : Ctx α) (hr : c.relax = false) (hsu : SiblingUnique c)
-    (parts : List String) (hp : ∀ p ∈ parts, Admissible p) (a : Addr)
+    {P : Char → Prop} (hca : CaseAgree c P)
+    (parts : List String) (hp : ∀ p ∈ parts, Admissible p)
+    (hpP : ∀ p ∈ parts, ∀ x ∈ p.toList, P x) (a : Addr)
     (k : Cache) (hk : C08.CacheInv k) (e : RErr) (h : walkPath c parts a = .error e) :
     ∃ e', (globM false c parts a k).1 = .error e' ∧ SameClass e e' :=
-  ⟨e, globM_literal_error c hr hsu parts hp a k hk e h, SameClass.refl e⟩
+  ⟨e, globM_literal_error c hr hsu hca parts hp hpP a k hk e h, SameClass.refl e⟩
 
 /-- only `RootResolverError` and `ChildResolverError` arise below the root component -/
 theorem walk_error_root_or_child (c : Ctx α) (parts : List String) (a : Addr) (e : RErr)
@@ -183,7 +215,8 @@ the node `get` returns, or the identical error (the root component of an absolut
 `__match` and `__cmp` agree on it, both raise the plain `ResolverError` on the root).
 No assumption on the separator is needed in strict mode (for `sep = ""` both raise). -/
 theorem glob_eq_get_of_components (c : Ctx α) (hr : c.relax = false) (hsu : SiblingUnique c)
-    (a : Addr) (path : String) (hp : ∀ p ∈ split c.sep path, Admissible p)
+    (a : Addr) (path : String) (hca : CaseAgree c (· ∈ path.toList))
+    (hp : ∀ p ∈ split c.sep path, Admissible p)
     (k : Cache) (hk : C08.CacheInv k) :
     (Resolver.glob false c a path k).1 =
       (match Resolver.get c a path with
@@ -191,47 +224,47 @@ theorem glob_eq_get_of_components (c : Ctx α) (hr : c.relax = false) (hsu : Sib
        | .ok none => .ok []
        | .error e => .error e) := by
   rw [(GlobL.glob_spec false c a path k hk).1, C08bL.get_strict c hr a path,
-    C08bL.globTopP_literal c hr hsu a path (fun p h => (admissible_iff p).mp (hp p h))]
+    C08bL.globTopP_literal c hr hsu a path hca (fun p h => (admissible_iff p).mp (hp p h))]
   cases getStrictS c a path <;> rfl
 
 /-- the same for a path string without `*` and `?` -/
 theorem glob_eq_get (c : Ctx α) (hr : c.relax = false) (hsu : SiblingUnique c)
-    (a : Addr) (path : String) (hw : isWildcard path = false)
+    (a : Addr) (path : String) (hca : CaseAgree c (· ∈ path.toList)) (hw : isWildcard path = false)
     (k : Cache) (hk : C08.CacheInv k) :
     (Resolver.glob false c a path k).1 =
       (match Resolver.get c a path with
        | .ok (some b) => .ok [b]
        | .ok none => .ok []
        | .error e => .error e) :=
-  glob_eq_get_of_components c hr hsu a path (split_admissible c.sep path hw) k hk
+  glob_eq_get_of_components c hr hsu a path hca (split_admissible c.sep path hw) k hk
 
 /-- same node first (and only) -/
 theorem glob_ok_of_get_ok (c : Ctx α) (hr : c.relax = false) (hsu : SiblingUnique c)
-    (a : Addr) (path : String) (hw : isWildcard path = false)
+    (a : Addr) (path : String) (hca : CaseAgree c (· ∈ path.toList)) (hw : isWildcard path = false)
     (k : Cache) (hk : C08.CacheInv k) (b : Addr) (h : Resolver.get c a path = .ok (some b)) :
     (Resolver.glob false c a path k).1 = .ok [b] := by
-  rw [glob_eq_get c hr hsu a path hw k hk, h]
+  rw [glob_eq_get c hr hsu a path hca hw k hk, h]
 
 /-- same error (class, node and component) -/
 theorem glob_error_of_get_error (c : Ctx α) (hr : c.relax = false) (hsu : SiblingUnique c)
-    (a : Addr) (path : String) (hw : isWildcard path = false)
+    (a : Addr) (path : String) (hca : CaseAgree c (· ∈ path.toList)) (hw : isWildcard path = false)
     (k : Cache) (hk : C08.CacheInv k) (e : RErr) (h : Resolver.get c a path = .error e) :
     (Resolver.glob false c a path k).1 = .error e := by
-  rw [glob_eq_get c hr hsu a path hw k hk, h]
+  rw [glob_eq_get c hr hsu a path hca hw k hk, h]
 
 theorem glob_error_class_of_get_error (c : Ctx α) (hr : c.relax = false) (hsu : SiblingUnique c)
-    (a : Addr) (path : String) (hw : isWildcard path = false)
+    (a : Addr) (path : String) (hca : CaseAgree c (· ∈ path.toList)) (hw : isWildcard path = false)
     (k : Cache) (hk : C08.CacheInv k) (e : RErr) (h : Resolver.get c a path = .error e) :
     ∃ e', (Resolver.glob false c a path k).1 = .error e' ∧ SameClass e e' :=
-  ⟨e, glob_error_of_get_error c hr hsu a path hw k hk e h, SameClass.refl e⟩
+  ⟨e, glob_error_of_get_error c hr hsu a path hca hw k hk e h, SameClass.refl e⟩
 
 /-- and conversely: whatever strict `glob` gives on a wildcard-free path is what `get` gives -/
 theorem get_of_glob (c : Ctx α) (hr : c.relax = false) (hsu : SiblingUnique c)
-    (a : Addr) (path : String) (hw : isWildcard path = false)
+    (a : Addr) (path : String) (hca : CaseAgree c (· ∈ path.toList)) (hw : isWildcard path = false)
     (k : Cache) (hk : C08.CacheInv k) :
     (∀ l, (Resolver.glob false c a path k).1 = .ok l → ∃ b, l = [b] ∧ Resolver.get c a path = .ok (some b)) ∧
     (∀ e, (Resolver.glob false c a path k).1 = .error e → Resolver.get c a path = .error e) := by
-  have hg := glob_eq_get c hr hsu a path hw k hk
+  have hg := glob_eq_get c hr hsu a path hca hw k hk
   have hn := get_strict_ne_none c hr a path
   rcases hget : Resolver.get c a path with e | (_ | b)
   · rw [hget] at hg
@@ -243,5 +276,63 @@ theorem get_of_glob (c : Ctx α) (hr : c.relax = false) (hsu : SiblingUnique c)
     simp only at hg
     rw [hg]
     exact ⟨fun l h => (by cases h; exact ⟨b, rfl, rfl⟩), fun e' h => (by cases h)⟩
+
+/-- the form for ASCII names and an ASCII path (any `ignorecase`) -/
+theorem glob_eq_get_ascii (c : Ctx α) (hr : c.relax = false) (hsu : SiblingUnique c)
+    (a : Addr) (path : String) (hn : ∀ b, ∀ x ∈ (c.name b).toList, x.toNat < 128)
+    (hpa : ∀ x ∈ path.toList, x.toNat < 128) (hw : isWildcard path = false)
+    (k : Cache) (hk : C08.CacheInv k) :
+    (Resolver.glob false c a path k).1 =
+      (match Resolver.get c a path with
+       | .ok (some b) => .ok [b]
+       | .ok none => .ok []
+       | .error e => .error e) :=
+  glob_eq_get c hr hsu a path (caseAgree_of_ascii c _ hn hpa) hw k hk
+
+/-- … and without `ignorecase`, whatever the characters -/
+theorem glob_eq_get_caseSensitive (c : Ctx α) (hr : c.relax = false) (hic : c.ignorecase = false)
+    (hsu : SiblingUnique c) (a : Addr) (path : String) (hw : isWildcard path = false)
+    (k : Cache) (hk : C08.CacheInv k) :
+    (Resolver.glob false c a path k).1 =
+      (match Resolver.get c a path with
+       | .ok (some b) => .ok [b]
+       | .ok none => .ok []
+       | .error e => .error e) :=
+  glob_eq_get c hr hsu a path (caseAgree_of_ignorecase_false c _ hic) hw k hk
+
+/-! ## 4. `CaseAgree` cannot be dropped
+
+A root with the single child `K` (U+212A KELVIN SIGN), `ignorecase=True`, strict: `get(root, "k")`
+raises `ChildResolverError` (`"K".upper()` is the sign itself, not `"K"`), while `glob(root, "k")`
+returns the child (`re.IGNORECASE` folds the sign to `k`).  The names are sibling-unique.  This is the
+behaviour of the real code too (the `casefold` cases of the correspondence run replay it). -/
+
+def kTree : Tree String := .node "root" [.node "\u212a" []]
+def kCtx : Ctx String := ⟨kTree, id, "/", true, false⟩
+
+example : matchPure true "\u212a" "k" = true ∧ cmp true "\u212a" "k" = false := by decide
+example : Resolver.get kCtx [] "k" = .error (.child [] "k") := by decide
+#guard (Resolver.glob false kCtx [] "k" []).1 == .ok [[0]]      -- evaluated, not kernel-checked
+example : SiblingUnique kCtx := by
+  intro a x y hx hy _
+  match a, hx, hy with
+  | [], hx, hy =>
+    have h1 : x = [0] := by simpa [kCtx, kTree, Ctx.children, Nav.childAddrs, sub] using hx
+    have h2 : y = [0] := by simpa [kCtx, kTree, Ctx.children, Nav.childAddrs, sub] using hy
+    rw [h1, h2]
+  | [0], hx, _ => simp [kCtx, kTree, Ctx.children, Nav.childAddrs, sub] at hx
+  | 0 :: _ :: _, hx, _ => simp [kCtx, kTree, Ctx.children, Nav.childAddrs, sub] at hx
+  | (_ + 1) :: _, hx, _ => simp [kCtx, kTree, Ctx.children, Nav.childAddrs, sub] at hx
+example : ¬ CaseAgree kCtx (· ∈ "k".toList) := by
+  intro h
+  have := h rfl '\u212a' 'k' (Or.inr ⟨[0], by decide⟩) (Or.inl (by decide))
+  exact CaseFold.signs_irregular.1.2 (this.mp CaseFold.signs_irregular.1.1)
+
+/-- with a regular non-ASCII letter instead the two agree, as the theorem says -/
+def eTree : Tree String := .node "root" [.node "\u00c9" []]
+def eCtx : Ctx String := ⟨eTree, id, "/", true, false⟩
+example : matchPure true "\u00c9" "\u00e9" = true ∧ cmp true "\u00c9" "\u00e9" = true := by decide
+example : Resolver.get eCtx [] "\u00e9" = .ok (some [0]) := by decide
+#guard (Resolver.glob false eCtx [] "\u00e9" []).1 == .ok [[0]]
 
 end Anytree.Props.C08b
